@@ -232,6 +232,25 @@ func TestC20(t *testing.T) {
 			}
 		}
 	}
+	// honest inputs of megabytes: the allocation must stay a constant multiple of the input
+	// at every size (nothing that grows with the square of the length, block by block)
+	{
+		rb := newRng(2022)
+		u8 := &Ty{Kind: "u", N: 1}
+		sizes := []int{1<<20 + 5, 4<<20 + 3}
+		if thorough() {
+			sizes = append(sizes, 8<<20+1)
+		}
+		for _, n := range sizes {
+			body := make([]byte, n)
+			rb.Read(body)
+			do("mega", &Ty{Kind: "list", Elem: u8, N: 1 << 40}, body)
+			if n < 2<<20 || thorough() {
+				// (List[uint64] of this size is left out: the model's element decoding is quadratic)
+				do("mega", &Ty{Kind: "cont", Fields: []*Ty{{Kind: "list", Elem: u8, N: 1 << 40}, u8}}, append([]byte{5, 0, 0, 0, 1}, body...))
+			}
+		}
+	}
 	n := 150
 	if thorough() {
 		n = 3000
